@@ -4,7 +4,7 @@ import numpy as np
 from .. import sym, expr
 from ..core import Check, Unit
 from ..sym import all_close
-from .stoch import arr
+from .stoch import arr, snapshot, unchanged
 from .c01 import built, point, bind
 
 
@@ -57,12 +57,14 @@ def var_unit(spec, by_state, iv):
             env[nm] = c.real(nm)
             z.append(env[nm])
         zarr = arr(c, z)
+        z_before = snapshot(zarr)
         if iv:
             got = m.ode_and_sensitivityIV(zarr, t)
             gotJ = m.ode_and_sensitivityIV_jacobian(zarr, t)
         else:
             got = m.ode_and_sensitivity(zarr, t, by_state)
             gotJ = m.ode_and_sensitivity_jacobian(zarr, t, by_state)
+        c.prove(unchanged(zarr, z_before, c), "the augmented state vector handed in is not modified by the evaluators")
         ref = [expr.ev(e, env) for e in rhs]
         N = len(names)
         c.prove(np.asarray(got, dtype=object).shape == (N,), "augmented right-hand side has one entry per augmented state")
